@@ -140,7 +140,7 @@ func (n *c07Node) render() string {
 var c07Arrs = [][]string{{"p", "q"}, {"r", "s", "t"}, {"p", "q"}}
 var c07ObjKeyss = [][]string{{"ka", "kb"}, {"ja", "jb", "jc"}, {"ka", "kb"}} // iterated in sorted order
 var c07ObjValss = [][]string{{"va", "vb"}, {"wa", "wb", "wc"}, {"va", "vb"}}
-var c07Strs = []string{"xy", "uvw", "xy"}
+var c07Strs = []string{"x\u00e9", "u\u00f1w", "x\u00e9"} // multi-byte characters: the second loop variable is the byte offset
 
 func (n *c07Node) lvl() int { return int(n.id[0]-'1') % 3 }
 
@@ -249,7 +249,12 @@ func (n *c07Node) exec(c *c07Ctx) int {
 			return s
 		}
 	case cForInStr:
-		if s, _ := loop(len(c07Strs[n.lvl()]), func(i int) { c.out += c07Strs[n.lvl()][i:i+1] + " " + itoa(i) + "\n" }); s != sigNone {
+		var chars []string
+		var offs []int
+		for o, r := range c07Strs[n.lvl()] {
+			chars, offs = append(chars, string(r)), append(offs, o)
+		}
+		if s, _ := loop(len(chars), func(i int) { c.out += chars[i] + " " + itoa(offs[i]) + "\n" }); s != sigNone {
 			return s
 		}
 	case cBlock:
